@@ -459,6 +459,10 @@ class Lower:
         fld = self.ast.byid.get(n.get('referencedMemberDecl'), {})
         if fld.get('kind') == 'VarDecl':        # static data member via object
             return self.global_ref(fld)
+        if fld:
+            fkey = 'field:%s::%s' % (self.objtype(b), n['name'].lstrip('->.'))
+            if fkey in self.stubs:               # a dumped class whose objects the unit models otherwise (a caught exception object)
+                return self.stubs[fkey].replace('$', base)
         if not fld:
             key = 'field:%s::%s' % (re.sub(r'\((unnamed|anonymous) (union|struct) at [^)]*\)', r'(anonymous \2)', self.objtype(b)), n['name'].lstrip('->.'))
             if key in self.stubs:
@@ -825,6 +829,8 @@ class Lower:
             x = x.replace('$this', objp)
         for i, a in enumerate(argl):
             x = x.replace('$%d' % i, a)
+        # $VCAT: the value category of the call expression (lvalue / xvalue / prvalue) -- for callees whose return type is computed (T& or T&&)
+        x = x.replace('$VCAT', n.get('valueCategory', 'prvalue'))
         if st.get('throws_void'):         # an expression stub without result that may raise: evaluated as a statement, followed by the exception exit
             self.pre.append(x + ';')
             self.pre.append('@EXC@')
